@@ -34,9 +34,10 @@ def main():
         rc1, o1 = sh("CARGO_NET_OFFLINE=true cargo test --offline 2>&1 | grep 'test result\\|FAILED\\|failed'", cwd=wt)
         demo = meta.get("demo", "").replace(".rs", "")
         rc2, o2 = sh("CARGO_NET_OFFLINE=true cargo test --offline --test %s 2>&1 | grep 'test result'" % demo, cwd=wt)
-        sh("git stash -- src", cwd=wt)
+        # (not `git stash`: the stash is shared by all worktrees of the repository)
+        sh("git apply -R %s" % patch, cwd=wt)
         rc3, o3 = sh("CARGO_NET_OFFLINE=true cargo test --offline --test %s 2>&1 | grep 'test result'" % demo, cwd=wt)
-        sh("git stash pop", cwd=wt)
+        sh("git apply %s" % patch, cwd=wt)
         meta["confirm"] = {"suite_and_demo_with_change": o1.strip().splitlines(), "demo_with_change": o2.strip(),
                            "demo_without_change": o3.strip()}
         print("confirm:", json.dumps(meta["confirm"], indent=1))
